@@ -40,7 +40,8 @@ Opts == { [fmt |-> FALSE, padChar |-> 32, padNum |-> 0, enc |-> "utf8", bom |-> 
           [fmt |-> TRUE, padChar |-> 9, padNum |-> 1, enc |-> "utf16le", bom |-> TRUE],
           [fmt |-> FALSE, padChar |-> 32, padNum |-> 0, enc |-> "utf16be", bom |-> FALSE],
           [fmt |-> TRUE, padChar |-> 32, padNum |-> 4, enc |-> "utf32le", bom |-> FALSE],
-          [fmt |-> FALSE, padChar |-> 32, padNum |-> 0, enc |-> "utf32be", bom |-> TRUE] }
+          [fmt |-> FALSE, padChar |-> 32, padNum |-> 0, enc |-> "utf32be", bom |-> TRUE],
+          [fmt |-> TRUE, padChar |-> 32, padNum |-> 3, enc |-> "utf8", bom |-> FALSE] }      \* pretty UTF-8 without BOM: stream bytes = memory bytes
 
 Init == /\ n = 0 /\ opt \in Opts
         /\ \/ \E tv \in Typed : root = Leaf(tv)
